@@ -36,7 +36,7 @@ std::string RefCanon(const std::string& s) {
 }
 
 struct Stats {
-  uint64_t evals = 0, changed = 0, changed_exh = 0, mismatches = 0, idem_checks = 0, string_overload = 0;
+  uint64_t shaped = 0, evals = 0, changed = 0, changed_exh = 0, mismatches = 0, idem_checks = 0, string_overload = 0;
   std::unordered_set<uint64_t> distinct_out;
   std::vector<std::string> bad;  // hex input|got|want|kind
   std::vector<std::string> samples;
@@ -150,6 +150,33 @@ int probe_canon(int argc, char** argv) {
     if (s.empty()) s = ".";
     CheckOne(s, &st, false);
   }
+  // shaped paths: descend D components, climb U times with "..", descend again - every (D, U) up to 72 (any
+  // internal bookkeeping of component positions, whatever its size, is crossed in both directions), plain and with
+  // "." / empty components sprinkled in, relative and absolute
+  uint64_t shaped = 0;
+  for (int D = 0; D <= 72; ++D) {
+    for (int U = 0; U <= 72; ++U) {
+      if ((uint64_t)(D * 73 + U) % nshards != (uint64_t)shard) continue;
+      for (int variant = 0; variant < 6; ++variant) {
+        std::string s = (variant & 1) ? "/" : "";
+        for (int c = 0; c < D; ++c) {
+          s += "d" + std::to_string(c) + "/";
+          if (variant >= 4 && Rnd() % 5 == 0) s += (Rnd() & 1) ? "./" : "/";
+        }
+        for (int c = 0; c < U; ++c) {
+          s += "../";
+          if (variant >= 4 && Rnd() % 5 == 0) s += (Rnd() & 1) ? "./" : "/";
+        }
+        int T = variant % 3 == 0 ? 0 : (variant % 3 == 1 ? 1 : 3);
+        for (int c = 0; c < T; ++c) s += "t" + std::to_string(c) + (c + 1 < T ? "/" : "");
+        if (T == 0 && !s.empty() && s != "/" && (variant & 2)) s.pop_back();
+        if (s.empty()) s = ".";
+        CheckOne(s, &st, false);
+        ++shaped;
+      }
+    }
+  }
+  st.shaped = shaped;
   printf("{\"evals\":%llu,\"exhaustive\":%llu,\"random\":%ld,\"changed\":%llu,"
          "\"changed_exh\":%llu,\"distinct_out\":%zu,\"mismatches\":%llu,\"idem_checks\":%llu,\"string_overload\":%llu,"
          "\"bad\":[",
@@ -158,7 +185,7 @@ int probe_canon(int argc, char** argv) {
          (unsigned long long)st.mismatches, (unsigned long long)st.idem_checks,
          (unsigned long long)st.string_overload);
   for (size_t i = 0; i < st.bad.size(); ++i) printf("%s\"%s\"", i ? "," : "", st.bad[i].c_str());
-  printf("],\"samples\":[");
+  printf("],\"shaped\":%llu,\"samples\":[", (unsigned long long)st.shaped);
   for (size_t i = 0; i < st.samples.size(); ++i) {
     printf("%s\"%s\"", i ? "," : "", Hex(st.samples[i]).c_str());
   }
